@@ -139,6 +139,19 @@ theorem disable_disabled_fails (s : St K A) (r : K) (he : enabledB s r = false) 
   | none => simp
   | some m => rw [hf] at he; simp only at he; simp [he]
 
+/-- NOTE (code vs. property text): the property lists three calls that must FAIL without side
+effects (grant held / revoke absent / enable enabled — the three theorems above). `disable_role`
+on a role that was never created is not among them and the code answers `Ok(())`; it is a no-op:
+no role is created, nothing changes. -/
+theorem disable_unknown_is_noop (s : St K A) (r : K) (hk : knownB s r = false) :
+    disableRole s r = .ok s ∧ apply s (.disable r) = s := by
+  have h : disableRole s r = .ok s := by
+    unfold disableRole; unfold knownB at hk
+    cases hf : findRole s.roles r with
+    | none => rfl
+    | some m => rw [hf] at hk; cases hk
+  exact ⟨h, by simp [apply, step, h]⟩
+
 /-! ### members -/
 
 /-- revoking the last role held removes the member: afterwards every query about that address
@@ -325,6 +338,27 @@ theorem restart_spec (ra : K) (s : St K A) (a : A) (r : K) :
     cases h : hasRole s a ra with
     | error e => simp
     | ok b => cases b <;> simp
+
+/-- NOTE ("authorised for every role" is literal): after a restart a holder of the enabled
+RESTART_ADMIN role is authorised even for a role name that was never created, and for a disabled
+one — the requested role is not looked at. Conversely, if RESTART_ADMIN itself is disabled or was
+never created, NOBODY is authorised through `has_role` after a restart (the call errs). -/
+theorem restart_any_role_name (ra : K) (s : St K A) (a : A) (r : K)
+    (he : enabledB s ra = true) (hg : grantedB s a ra = true) :
+    storeHasRole ra s true a r = .ok true :=
+  ((restart_spec ra s a r).1).2 ⟨he, hg⟩
+
+/-- if RESTART_ADMIN is not an enabled role, nobody passes `has_role` after a restart -/
+theorem restart_without_admin_role (ra : K) (s : St K A) (a : A) (r : K) (he : enabledB s ra = false) :
+    ∃ e, storeHasRole ra s true a r = .error e := by
+  have h1 := (restart_spec ra s a r).1
+  have h2 := (restart_spec ra s a r).2.1
+  cases h : storeHasRole ra s true a r with
+  | error e => exact ⟨e, rfl⟩
+  | ok b =>
+    cases b
+    · exact absurd h h2
+    · have := (h1.1 h).1; rw [he] at this; cases this
 
 /-- without a pending restart `Store::has_role` is `RoleStore::has_role` -/
 theorem no_restart_spec (ra : K) (s : St K A) (a : A) (r : K) :
